@@ -3,10 +3,10 @@
 (* Trace validation for C13.  Every line recorded by harness/drivers/c13   *)
 (* from the REAL standard.Conn / network.NewWriter must be a step of       *)
 (* ByteQueue:                                                              *)
-(*   Case{id,part,target,size,frag,eofAt,eofMode,endCls,tmoAt,ncp,ops}     *)
+(*   Case{id,part,target,size,frag,eofAt,eofMode,endCls,tmoAt,ncp,arena,ops} *)
 (*   SrcRead{n,calls,cls}  socket reads of the following op (aggregated)   *)
 (*   Sink{f,t,nr,n}        what the peer received during the following op  *)
-(*   Op{i,k,n,cnt,f,t,nr,cls,len,pk}                                       *)
+(*   Op{i,k,n,cnt,f,t,nr,cls,len,pk,ab}                                    *)
 (*   End{cp}                                                               *)
 (* (a Panic line has no action => the case is rejected).                   *)
 (* Per Op line: the operation is operation i of the case's program, its    *)
@@ -82,11 +82,12 @@ TraceOp ==
     \* what was observed is what the model returns
     /\ res'.run = ObsRun
     /\ res'.cnt = Line.cnt
+    /\ res'.ab = Line.ab          \* the caller's backing array still holds exactly what the caller wrote
     /\ Line.len = rcv - rd'
     /\ Line.pk = peeks'
     /\ UNCHANGED <<eofAt, rcv, term, prog, ncp, active>>
 
-TraceEnd == /\ IsEv("End") /\ active /\ steps = Len(prog)
+TraceEnd == /\ IsEv("End") /\ active /\ steps = Len(prog) /\ Line.ab = 0
             /\ Line.cp = SubSeq(copies, 1, Min2(ncp, Len(copies)))
             /\ IdleVals
 
